@@ -1450,10 +1450,13 @@ func asUncatchableException(v interface{}) error {
 func (r *Runtime) RunProgram(p *Program) (result Value, err error) {
 	vm := r.vm
 	recursive := len(vm.callStack) > 0
+	pushed := false
 	defer func() {
 		if recursive {
-			vm.sp -= 2
-			vm.popCtx()
+			if pushed {
+				vm.sp -= 2
+				vm.popCtx()
+			}
 		} else {
 			vm.callStack = vm.callStack[:len(vm.callStack)-1]
 		}
@@ -1469,7 +1472,8 @@ func (r *Runtime) RunProgram(p *Program) (result Value, err error) {
 		}
 	}()
 	if recursive {
-		vm.pushCtx()
+		vm.pushCtx() // may panic with a StackOverflowError
+		pushed = true
 		vm.stash = &r.global.stash
 		vm.privEnv = nil
 		vm.newTarget = nil
